@@ -315,6 +315,18 @@ func (v *Verifier) localName(env *Env, name string) (Val, bool) {
 		}
 	}
 	refs := fr.dbgNames[name]
+	// range-over-slice index: the source variable is (hidden phi + 1); at the loop head it denotes the next index
+	for _, d := range refs {
+		if bo, ok := d.X.(*ssa.BinOp); ok && bo.Block() == env.at {
+			if phi, ok := bo.X.(*ssa.Phi); ok && phi.Block() == env.at && phi.Comment == "rangeindex" {
+				pv, ok := env.phiSubst[phi]
+				if !ok {
+					pv = fr.vals[phi]
+				}
+				return Val{K: KInt, T: phi.Type(), A: add(pv.A, "1")}, true
+			}
+		}
+	}
 	var best *ssa.DebugRef
 	for _, d := range refs {
 		b := d.Block()
@@ -602,6 +614,21 @@ func (v *Verifier) evalCall(env *Env, x *SCall) Val {
 		if id, ok := sel.X.(*SIdent); ok {
 			if sf, ok := v.contracts.Specs[id.Name+"."+sel.Name]; ok {
 				return v.applySpecFunc(env, sf, x.Args)
+			}
+			// pure library function used as a spec function
+			if lc, ok := v.contracts.Funcs[id.Name+"."+sel.Name]; ok && lc.Pure {
+				var terms []Term
+				var sorts []string
+				for _, a := range x.Args {
+					ts, ss := flattenVal(v.evalSpec(env, a))
+					terms = append(terms, ts...)
+					sorts = append(sorts, ss...)
+				}
+				lp := v.pkgByName(env.pkg, lc.PkgName)
+				rt := v.resolveType(lp, lc.Results[0].Type)
+				f := v.ctx.declareFun("F!"+lc.Key, sorts, scalarSort(rt))
+				v.trustedUsed[lc.Key] = lc.TrustWhy
+				return Val{K: kindOf(rt), T: rt, A: app(f, terms...)}
 			}
 			// type conversion pkg.T(x)
 			if p := v.pkgByName(env.pkg, id.Name); p != nil {
